@@ -270,13 +270,16 @@ def h_sim_params(ctx, setting):
                                               'solver_spatial_resolution': 100}, 'nli_params': {'method': 'ggn_approx'}},
         'raman_off_custom_nli': {'raman_params': {'flag': False, 'order': 1}, 'nli_params': {'method': 'gn_model_analytic', 'dispersion_tolerance': 2,
                                                                                          'computed_number_of_channels': 3}},
+        'computed_number_of_channels': {'raman_params': {'flag': True, 'method': 'perturbative', 'order': 2},
+                                        'nli_params': {'method': 'ggn_approx', 'computed_number_of_channels': 7}},
         'perturbative_order4': {'raman_params': {'flag': True, 'method': 'perturbative', 'order': 4}, 'nli_params': {'method': 'ggn_spectrally_separated',
                                                                                                               'computed_channels': [1, 5]}},
     }[setting]
     SimParams.set_params(deepcopy(user))
 
     def snapshot():
-        return {k: v.to_json() for k, v in SimParams._shared_dict.items()}
+        # attribute values of the parameter objects themselves (not their own to_json, which may omit a field)
+        return {k: {a: (list(b) if isinstance(b, (list, tuple)) else b) for a, b in vars(v).items()} for k, v in SimParams._shared_dict.items()}
     before = snapshot()
     eqpt = deepcopy(equipment())
     topo = load_json(Path(common.EXAMPLE) / 'raman_edfa_example_network.json')
@@ -306,6 +309,6 @@ def jobs(tier):
                        budget_s=250 if tier == 'quick' else 600, continue_after_violation=True))
     for f in (['edfa_example_network.json'] if tier == 'quick' else ['edfa_example_network.json', 'meshTopologyExampleV2.json']):
         js.append(dict(name=f'H17a:pipeline:{f}', fn='h_pipeline', params=dict(eol=0, source=f), cost=100, continue_after_violation=True))
-    for s in ('defaults', 'numerical_order3', 'raman_off_custom_nli', 'perturbative_order4'):
+    for s in ('defaults', 'numerical_order3', 'raman_off_custom_nli', 'perturbative_order4', 'computed_number_of_channels'):
         js.append(dict(name=f'H17c:sim_params_preserved:{s}', fn='h_sim_params', params=dict(setting=s), cost=80))
     return js
